@@ -180,7 +180,8 @@ class NumInterp:
                 return v
             raise Unsupported("use of undefined value " + i)
         if k == "undef":
-            raise Unsupported("undef operand")
+            b = o.get("bits")
+            return self.top_int(b or 64)
         raise Unsupported("operand kind " + k)
 
     def aff_mul(self, a, b_):
@@ -630,7 +631,8 @@ class NumInterp:
                     elo, ehi = elo - re, ehi + re
             return AV("float", b, rnd(a.lo, b), rnd(a.hi, b), a.lo_w, a.hi_w, a.mono, aff, elo, ehi)
         if op == "bitcast":
-            raise Unsupported("bitcast in numeric code")
+            # type punning (SROA of partially initialised aggregates): value unknown
+            return self.top_float(b) if t["k"] == "float" else self.top_int(b)
         raise Unsupported("cast " + op)
 
     # comparisons & refinement ------------------------------------------------
@@ -714,6 +716,11 @@ class NumInterp:
                 lo = max(lo, other.lo)
             elif rel == "eq":
                 lo, hi = max(lo, other.lo), min(hi, other.hi)
+            elif rel == "ne" and other.is_const() and step:
+                if other.lo == lo:
+                    lo = lo + 1
+                if other.lo == hi:
+                    hi = hi - 1
             if lo > hi:
                 out["__dead__"] = True
                 return
@@ -729,6 +736,30 @@ class NumInterp:
                 if n.hi_w is None:
                     n.hi_w = {o["id"]: hi}
             out[o["id"]] = n
+            # the same restriction holds for the value this one was cast from (value-preserving casts)
+            src = o
+            cur = n
+            for _ in range(6):
+                di = self.inst_of.get(src.get("id")) if src["k"] == "v" else None
+                if di is None or di["op"] not in ("zext", "sext", "trunc"):
+                    break
+                so = di["ops"][0]
+                if so["k"] not in ("v", "arg"):
+                    break
+                try:
+                    sv = self.operand(so, refine)
+                except Unsupported:
+                    break
+                if sv.top or sv.kind != "int":
+                    break
+                if di["op"] == "trunc" and not (fits_u(sv.lo, sv.hi, di["type"]["bits"]) or fits_s(sv.lo, sv.hi, di["type"]["bits"])):
+                    break
+                nlo, nhi = max(sv.lo, cur.lo), min(sv.hi, cur.hi)
+                if nlo > nhi:
+                    break
+                cur = clone(sv, nlo, nhi)
+                out[so["id"]] = cur
+                src = so
         flip = {"lt": "gt", "le": "ge", "gt": "lt", "ge": "le", "eq": "eq", "ne": "ne"}
         restrict(o0, a, b_, base)
         restrict(o1, b_, a, flip[base])
@@ -828,6 +859,8 @@ class NumInterp:
                     a = self.operand(inst["ops"][0], ref)
                     z = const_av("float", a.bits, 0.0, self.inputs)
                     self.val[inst["id"]] = self.fbin(dict(inst, op="fsub"), "fsub", z, a)
+                elif op == "bitcast" and inst["ops"][0]["k"] == "undef":
+                    self.val[inst["id"]] = self.top_float(inst["type"]["bits"]) if inst["type"]["k"] == "float" else self.top_int(inst["type"].get("bits", 64))
                 elif op in ("zext", "sext", "trunc", "uitofp", "sitofp", "fptoui", "fptosi", "fpext", "fptrunc", "bitcast"):
                     self.val[inst["id"]] = self.cast(inst, op, self.operand(inst["ops"][0], ref))
                 elif op in ("icmp", "fcmp"):
